@@ -505,6 +505,7 @@ class IdentityRun(PubSubRun):
         for a in self.actors:
             if a.sock is not None and a.sock.kind == "conn":
                 by_conn[a.conn] = a
+        self.oracle_wrongly_closed(model, by_conn)
         # directed probes reach exactly the holder(s) plus loggers
         self.oracle_c01(model, by_conn, prop="C06", clause_prefix="directed.")
         closed = {c: s for (s, c) in net.closes}
